@@ -1,6 +1,7 @@
 import Utv.Model.Rule
 import Utv.Model.C02Decl
 import Utv.Lemmas.Py
+import Utv.Lemmas.Num
 /-!
 C02 — validation is exact on well-typed values and agrees with isinstance.
 
@@ -78,6 +79,115 @@ theorem C02_nan_rejected (P : Prims) (b : Int) :
     simp [Constraints.gt, Constraints.lt, Constraints.ge, Constraints.le, Py.gt, Py.ge, Py.le, Py.lt,
       Py.eq, Py.eqScalar, num?, isDecNan, isDec, isFloatNan, NumV.lt, NumV.eq, bind, Except.bind, pure, Except.pure, throw, throwThe,
       MonadExceptOf.throw]
+
+/-! ### the order on the exact numeric domains, stated against integer arithmetic (not against `Py.lt`)
+
+A finite number is `n · 2^p2 · 10^p10` (`Q`): an int is `n`, a Decimal `±c · 10^e`, a finite float `m · 2^e` — all exact.
+Two such numbers are compared after scaling both to integers over **any** common pair of exponents `(m2, m10)` that is
+below both; the verdict does not depend on the choice (the model happens to use the minimum). -/
+
+/-- `q` as an integer multiple of `2^m2 · 10^m10` (for `m2 ≤ q.p2`, `m10 ≤ q.p10`) -/
+def _root_.Utv.Py.Q.over (q : Q) (m2 m10 : Int) : Int := q.n * 2 ^ (q.p2 - m2).toNat * 10 ^ (q.p10 - m10).toNat
+
+theorem toNat_split (x mn m : Int) (h1 : m ≤ mn) (h2 : mn ≤ x) : (x - m).toNat = (x - mn).toNat + (mn - m).toNat := by
+  omega
+
+theorem Q_over_min (a b : Q) (m2 m10 : Int) (h2a : m2 ≤ a.p2) (h2b : m2 ≤ b.p2) (h10a : m10 ≤ a.p10) (h10b : m10 ≤ b.p10) :
+    a.over m2 m10 = (Q.scaled a b).1 * (2 ^ (min a.p2 b.p2 - m2).toNat * 10 ^ (min a.p10 b.p10 - m10).toNat) ∧
+    b.over m2 m10 = (Q.scaled a b).2 * (2 ^ (min a.p2 b.p2 - m2).toNat * 10 ^ (min a.p10 b.p10 - m10).toNat) := by
+  unfold Utv.Py.Q.over Q.scaled
+  have e1 := toNat_split a.p2 (min a.p2 b.p2) m2 (by omega) (by omega)
+  have e2 := toNat_split a.p10 (min a.p10 b.p10) m10 (by omega) (by omega)
+  have e3 := toNat_split b.p2 (min a.p2 b.p2) m2 (by omega) (by omega)
+  have e4 := toNat_split b.p10 (min a.p10 b.p10) m10 (by omega) (by omega)
+  simp only [e1, e2, e3, e4, Int.pow_add]
+  constructor <;> ac_rfl
+
+theorem scale_pos (i j : Nat) : (0 : Int) < 2 ^ i * 10 ^ j :=
+  Int.mul_pos (Int.pow_pos (by decide)) (Int.pow_pos (by decide))
+
+/-- **`<` on finite numbers is the order of the scaled integers, over any common exponents** -/
+theorem C02_lt_exact (a b : Q) (m2 m10 : Int) (h2a : m2 ≤ a.p2) (h2b : m2 ≤ b.p2) (h10a : m10 ≤ a.p10) (h10b : m10 ≤ b.p10) :
+    Q.lt a b = decide (a.over m2 m10 < b.over m2 m10) := by
+  obtain ⟨ha, hb⟩ := Q_over_min a b m2 m10 h2a h2b h10a h10b
+  rw [ha, hb]
+  unfold Q.lt
+  simp only [Int.mul_lt_mul_right (scale_pos _ _)]
+
+/-- … and `==` is equality of the scaled integers -/
+theorem C02_eq_exact (a b : Q) (m2 m10 : Int) (h2a : m2 ≤ a.p2) (h2b : m2 ≤ b.p2) (h10a : m10 ≤ a.p10) (h10b : m10 ≤ b.p10) :
+    Q.eq a b = decide (a.over m2 m10 = b.over m2 m10) := by
+  obtain ⟨ha, hb⟩ := Q_over_min a b m2 m10 h2a h2b h10a h10b
+  rw [ha, hb]
+  unfold Q.eq
+  have hpos := scale_pos (min a.p2 b.p2 - m2).toNat (min a.p10 b.p10 - m10).toNat
+  have : ((Q.scaled a b).1 * (2 ^ (min a.p2 b.p2 - m2).toNat * 10 ^ (min a.p10 b.p10 - m10).toNat) =
+      (Q.scaled a b).2 * (2 ^ (min a.p2 b.p2 - m2).toNat * 10 ^ (min a.p10 b.p10 - m10).toNat)) ↔
+      (Q.scaled a b).1 = (Q.scaled a b).2 := by
+    constructor
+    · intro h; exact Int.eq_of_mul_eq_mul_right (Int.ne_of_gt hpos) h
+    · intro h; rw [h]
+  simp only [this]
+
+/-- signed Decimal `s·c·10^e` -/
+def decQ (s : Bool) (c : Nat) (e : Int) : Q := ⟨if s then -(c : Int) else c, 0, e⟩
+
+/-- **Decimals against Decimals** (`gt`): over any exponent `m` below both, `value > bound` iff the integer coefficients
+scaled to `10^m` compare so — e.g. `Decimal('1.50') > Decimal('1.5')` is `150 > 150`, false -/
+theorem C02_gt_decimal (P : Prims) (s s' : Bool) (c c' : Nat) (e e' m : Int) (hm : m ≤ e) (hm' : m ≤ e') (r : PyVal) :
+    Constraints.gt P (.dec (.fin s c e)) (.dec (.fin s' c' e')) = .ok r ↔
+      (decQ s' c' e').over 0 m < (decQ s c e).over 0 m ∧ r = .dec (.fin s c e) := by
+  rw [C02_gt_iff]
+  have : Py.gt (.dec (.fin s c e)) (.dec (.fin s' c' e')) = .ok (Q.lt (decQ s' c' e') (decQ s c e)) := by
+    simp [Py.gt, Py.lt, num?, isDecNan, isDec, isFloatNan, NumV.lt, decQ, pure, Except.pure]
+  rw [this, C02_lt_exact _ _ 0 m (by simp [decQ]) (by simp [decQ]) (by simpa [decQ] using hm') (by simpa [decQ] using hm)]
+  simp
+
+/-- **mixed int bound / Decimal value** (`ge`), and the boundary: a Decimal equal to the int bound passes `ge`, fails `gt` -/
+theorem C02_ge_decimal_int (P : Prims) (s : Bool) (c : Nat) (e m : Int) (b : Int) (hm : m ≤ e) (hm0 : m ≤ 0) (r : PyVal) :
+    Constraints.ge P (.dec (.fin s c e)) (.int b) = .ok r ↔
+      (⟨b, 0, 0⟩ : Q).over 0 m ≤ (decQ s c e).over 0 m ∧ r = .dec (.fin s c e) := by
+  rw [C02_ge_iff]
+  have hlt : Py.lt (.int b) (.dec (.fin s c e)) = .ok (Q.lt ⟨b, 0, 0⟩ (decQ s c e)) := by
+    simp [Py.lt, num?, isDecNan, isDec, isFloatNan, NumV.lt, decQ, pure, Except.pure]
+  have heq : Py.eq (.int b) (.dec (.fin s c e)) = Q.eq ⟨b, 0, 0⟩ (decQ s c e) := by
+    simp [Py.eq, eqScalar, num?, NumV.eq, decQ]
+  simp only [Py.ge, Py.le, hlt, heq, bind, Except.bind, pure, Except.pure]
+  rw [C02_lt_exact _ _ 0 m (by simp) (by simp [decQ]) (by simpa using hm0) (by simpa [decQ] using hm),
+    C02_eq_exact _ _ 0 m (by simp) (by simp [decQ]) (by simpa using hm0) (by simpa [decQ] using hm)]
+  simp only [Except.ok.injEq, Bool.or_eq_true, decide_eq_true_eq]
+  constructor
+  · rintro ⟨h, rfl⟩; exact ⟨by omega, rfl⟩
+  · rintro ⟨h, rfl⟩; exact ⟨by omega, rfl⟩
+
+/-- **finite float against int** (`lt`): dyadic `m·2^e`, exact -/
+theorem C02_lt_float_int (P : Prims) (mant e k : Int) (b : Int) (hk : k ≤ e) (hk0 : k ≤ 0) (r : PyVal) :
+    Constraints.lt P (.float (.fin mant e)) (.int b) = .ok r ↔
+      (⟨mant, e, 0⟩ : Q).over k 0 < (⟨b, 0, 0⟩ : Q).over k 0 ∧ r = .float (.fin mant e) := by
+  rw [C02_lt_iff]
+  have : Py.lt (.float (.fin mant e)) (.int b) = .ok (Q.lt ⟨mant, e, 0⟩ ⟨b, 0, 0⟩) := by
+    simp [Py.lt, num?, isDecNan, isDec, isFloatNan, NumV.lt, pure, Except.pure]
+  rw [this, C02_lt_exact _ _ k 0 (by simpa using hk) (by simpa using hk0) (by simp) (by simp)]
+  simp
+
+/-- NaN never passes a range constraint, whatever the bound is (float NaN against int / float / infinite bounds is
+`False`; against a Decimal bound, and a Decimal NaN against anything, the comparison itself raises InvalidOperation) -/
+theorem C02_nan_never_passes (P : Prims) (b r : PyVal) :
+    Constraints.gt P (.float .nan) b ≠ .ok r ∧ Constraints.ge P (.float .nan) b ≠ .ok r ∧
+    Constraints.lt P (.float .nan) b ≠ .ok r ∧ Constraints.le P (.float .nan) b ≠ .ok r := by
+  refine ⟨?_, ?_, ?_, ?_⟩ <;> intro h
+  · rw [C02_gt_iff] at h
+    cases b <;> simp [Py.gt, Py.lt, num?, NumV.lt, isDecNan, isDec, isFloatNan, pure, Except.pure, throw, throwThe, MonadExceptOf.throw] at h
+    all_goals (first | (rename_i f; cases f <;> simp_all [num?, NumV.lt]) | skip)
+  · rw [C02_ge_iff] at h
+    cases b <;> simp [Py.ge, Py.le, Py.lt, Py.eq, eqScalar, num?, NumV.lt, NumV.eq, isDecNan, isDec, isFloatNan, bind, Except.bind, pure, Except.pure, throw, throwThe, MonadExceptOf.throw] at h
+    all_goals (first | (rename_i f; cases f <;> simp_all [num?, NumV.lt, NumV.eq]) | skip)
+  · rw [C02_lt_iff] at h
+    cases b <;> simp [Py.lt, num?, NumV.lt, isDecNan, isDec, isFloatNan, pure, Except.pure, throw, throwThe, MonadExceptOf.throw] at h
+    all_goals (first | (rename_i f; cases f <;> simp_all [num?, NumV.lt]) | skip)
+  · rw [C02_le_iff] at h
+    cases b <;> simp [Py.le, Py.lt, Py.eq, eqScalar, num?, NumV.lt, NumV.eq, isDecNan, isDec, isFloatNan, bind, Except.bind, pure, Except.pure, throw, throwThe, MonadExceptOf.throw] at h
+    all_goals (first | (rename_i f; cases f <;> simp_all [num?, NumV.lt, NumV.eq]) | skip)
 
 /-! ### length / max_length / min_length -/
 
@@ -377,6 +487,85 @@ theorem preserving_ge : Preserving Constraints.ge := fun P v b r h => ((C02_ge_i
 theorem preserving_lt : Preserving Constraints.lt := fun P v b r h => ((C02_lt_iff P v b r).mp h).2
 theorem preserving_le : Preserving Constraints.le := fun P v b r h => ((C02_le_iff P v b r).mp h).2
 
+/-- closes `f P v b = .ok r → r = v` for straight-line validators: every `return` is `return value_` -/
+macro "pres_auto" h:ident : tactic => `(tactic| (
+  simp only [bind, Except.bind, pure, Except.pure, throw, throwThe, MonadExceptOf.throw] at $h:ident
+  repeat' (first
+    | (cases $h:ident; done)
+    | (injection $h:ident with h'; exact h'.symm)
+    | split at $h:ident)))
+
+theorem preserving_regex : Preserving Constraints.regex := by
+  intro P v b r h; unfold Constraints.regex at h; pres_auto h
+theorem preserving_multiple_of : Preserving Constraints.multiple_of := by
+  intro P v b r h; unfold Constraints.multiple_of at h; pres_auto h
+theorem preserving_max_digits : Preserving Constraints.max_digits := by
+  intro P v b r h; unfold Constraints.max_digits at h; pres_auto h
+theorem preserving_length : Preserving Constraints.length := by
+  intro P v b r h; unfold Constraints.length at h; pres_auto h
+theorem preserving_max_length : Preserving Constraints.max_length := by
+  intro P v b r h; unfold Constraints.max_length at h; pres_auto h
+theorem preserving_min_length : Preserving Constraints.min_length := by
+  intro P v b r h; unfold Constraints.min_length at h; pres_auto h
+theorem preserving_unique_items : Preserving Constraints.unique_items := by
+  intro P v b r h; unfold Constraints.unique_items at h; pres_auto h
+theorem preserving_enum : Preserving Constraints.enum := by
+  intro P v b r h
+  unfold Constraints.enum at h
+  simp only [Py.callValue, Py.getattrValue] at h
+  pres_auto h
+
+/-- the strict validators that hand their input back: all of them except `const` (returns the declared constant, which is
+`==` to the input — `C02_const_returns_equal`) and `decimal_places` (re-quantises a Decimal — `C02_decimal_places_decimal`) -/
+def strictPreservingNames : List String :=
+  ["gt", "ge", "lt", "le", "enum", "regex", "multiple_of", "max_digits", "length", "max_length", "min_length",
+   "unique_items"]
+
+/-- **twelve of the fourteen strict validators are `Preserving`** — so `C02_validate_iff`, `C02_parse_typed_iff` and the C03
+theorems that take `Preserving` as a hypothesis apply to every constraint list drawn from these names -/
+theorem C02_preserving_of_name {name : String} (hn : name ∈ strictPreservingNames) :
+    ∃ f, validatorOf name = some f ∧ Preserving f := by
+  simp only [strictPreservingNames, List.mem_cons, List.mem_nil_iff, or_false] at hn
+  rcases hn with rfl | rfl | rfl | rfl | rfl | rfl | rfl | rfl | rfl | rfl | rfl | rfl
+  · exact ⟨_, rfl, preserving_gt⟩
+  · exact ⟨_, rfl, preserving_ge⟩
+  · exact ⟨_, rfl, preserving_lt⟩
+  · exact ⟨_, rfl, preserving_le⟩
+  · exact ⟨_, rfl, preserving_enum⟩
+  · exact ⟨_, rfl, preserving_regex⟩
+  · exact ⟨_, rfl, preserving_multiple_of⟩
+  · exact ⟨_, rfl, preserving_max_digits⟩
+  · exact ⟨_, rfl, preserving_length⟩
+  · exact ⟨_, rfl, preserving_max_length⟩
+  · exact ⟨_, rfl, preserving_min_length⟩
+  · exact ⟨_, rfl, preserving_unique_items⟩
+
+/-- `decimal_places` leaves everything but a Decimal alone -/
+theorem preservingAt_decimal_places (P : Prims) (v b r : PyVal) (hv : Py.isinstance v .decimal = false)
+    (h : Constraints.decimal_places P v b = .ok r) : r = v := by
+  unfold Constraints.decimal_places at h
+  simp only [hv] at h
+  pres_auto h
+
+/-- the two that are not: witnesses (so the hypothesis `Preserving` really excludes them) -/
+theorem C02_const_not_preserving : ¬ Preserving Constraints.const := by
+  intro h
+  have := h ⟨fun _ => "", fun _ => "", fun _ => none, fun _ _ => none, fun f _ => f⟩ (.float (.fin 1 0)) (.int 1) (.int 1) rfl
+  cases this
+
+theorem C02_decimal_places_not_preserving : ¬ Preserving Constraints.decimal_places := by
+  intro h
+  have := h ⟨fun _ => "", fun _ => "", fun _ => none, fun _ _ => none, fun f _ => f⟩
+    (.dec (.fin false 13 (-1))) (.int 2) (.dec (.fin false 130 (-2))) rfl
+  cases this
+
+/-- strict `const` returns the declared constant, which equals (`==`) the input: `class C(float, Rule): const = 1; C(1.0)` is the
+int `1` — equal to the input, of the constant's type (the property asks for an equal result) -/
+theorem C02_const_returns_equal (P : Prims) (v c r : PyVal) (h : Constraints.const P v c = .ok r) :
+    r = c ∧ Py.eq v r = true := by
+  have h' := (C02_const_iff P v c r).mp h
+  exact ⟨h'.2.2, by rw [h'.2.2]; exact h'.1⟩
+
 /-- **Rule level.**  For constraint sets whose validators return their input, the validator loop accepts exactly when
 every single constraint accepts the *original* value, and hands the value back unchanged — for any number and order of
 constraints. -/
@@ -407,6 +596,14 @@ theorem C02_validate_iff (P : Prims) (cs : List (String × PyVal)) (v r : PyVal)
       constructor
       · rintro ⟨h1, h2⟩; exact ⟨⟨⟨f, hf, hfv⟩, h1⟩, h2⟩
       · rintro ⟨⟨_, h1⟩, h2⟩; exact ⟨h1, h2⟩
+
+/-- **any constraint list over the twelve input-preserving strict validators** (any length, any order, any bounds): accepted
+iff each constraint accepts the original value; result = input -/
+theorem C02_validate_iff_names (P : Prims) (cs : List (String × PyVal)) (v r : PyVal)
+    (hn : ∀ c ∈ cs, c.1 ∈ strictPreservingNames) :
+    validate P cs v = .ok r ↔
+      (∀ c ∈ cs, ∃ f, validatorOf c.1 = some f ∧ f P v c.2 = .ok v) ∧ r = v :=
+  C02_validate_iff P cs v r (fun c hc => C02_preserving_of_name (hn c hc))
 
 /-- the hypothesis of `C02_validate_iff` is satisfiable: a non-trivial constraint set -/
 example : ∀ c ∈ [("gt", PyVal.int 0), ("le", PyVal.int 10)], ∃ f, validatorOf c.1 = some f ∧ Preserving f := by
@@ -588,13 +785,24 @@ theorem C02_multi_base_example :
 /-- **Declared type level.**  For a declaration whose validators return their input and whose args parser hands a
 well-typed value back unchanged: the parse succeeds exactly when every compiled constraint accepts the value, the
 contains family holds, and the hook accepts — nothing is skipped, nothing else is checked -/
-theorem C02_parse_typed_iff (P : Prims) (d : Decl) (v r : PyVal)
+theorem parseTyped_eq_core (P : Prims) (d : Decl) (v : PyVal) (hpre : d.pre v = .ok v) (happ : d.applied = false) :
+    parseTyped P d v = parseCore P d v := by
+  unfold parseTyped
+  simp [hpre, happ, bind, Except.bind]
+
+/-- a hidden type (`@utype.apply`) takes an instance of its origin as it is: only the hooks run (by design, decorator.py:193) -/
+theorem C02_applied_skips_constraints (P : Prims) (d : Decl) (v w : PyVal) (hpre : d.pre v = .ok w) (happ : d.applied = true) :
+    parseTyped P d v = d.post w := by
+  unfold parseTyped
+  simp [hpre, happ, bind, Except.bind]
+
+theorem C02_parse_core_iff (P : Prims) (d : Decl) (v r : PyVal)
     (hargs : ∀ f, d.args = some f → f v = .ok v ∧ d.pack v = .ok v)
     (hp : ∀ c ∈ d.validators, ∃ f, validatorOf c.1 = some f ∧ Preserving f) :
-    parseTyped P d v = .ok r ↔
+    parseCore P d v = .ok r ↔
       (∀ c ∈ d.validators, ∃ f, validatorOf c.1 = some f ∧ f P v c.2 = .ok v) ∧
       ContainsHolds d.acc d.cont v ∧ d.post v = .ok r := by
-  unfold parseTyped
+  unfold parseCore
   have h1 : applyArgs d v = (.ok v : M PyVal) := by
     unfold applyArgs
     cases ha : d.args with
@@ -627,6 +835,16 @@ theorem C02_parse_typed_iff (P : Prims) (d : Decl) (v r : PyVal)
       · intro h; simp only [hc] at h; exact ⟨hall, hch, h⟩
       · rintro ⟨_, _, h⟩; simp only [hc]; exact h
 
+theorem C02_parse_typed_iff (P : Prims) (d : Decl) (v r : PyVal)
+    (hpre : d.pre v = .ok v) (happ : d.applied = false)
+    (hargs : ∀ f, d.args = some f → f v = .ok v ∧ d.pack v = .ok v)
+    (hp : ∀ c ∈ d.validators, ∃ f, validatorOf c.1 = some f ∧ Preserving f) :
+    parseTyped P d v = .ok r ↔
+      (∀ c ∈ d.validators, ∃ f, validatorOf c.1 = some f ∧ f P v c.2 = .ok v) ∧
+      ContainsHolds d.acc d.cont v ∧ d.post v = .ok r := by
+  rw [parseTyped_eq_core P d v hpre happ]
+  exact C02_parse_core_iff P d v r hargs hp
+
 /-- `isinstance(v, T)` = origin check ∧ "the parse succeeds", for every declaration -/
 theorem C02_isinstance_decl (P : Prims) (d : Decl) (originOk : PyVal → Bool) (v : PyVal) :
     instancecheck originOk (parseTyped P d) v = true ↔ originOk v = true ∧ ∃ r, parseTyped P d v = .ok r := by
@@ -636,16 +854,17 @@ theorem C02_isinstance_decl (P : Prims) (d : Decl) (originOk : PyVal → Bool) (
 /-- … in particular for a type whose *only* checks are contains / hooks (no validators, no args): isinstance is not
 the bare origin check -/
 theorem C02_isinstance_contains_only (P : Prims) (d : Decl) (originOk : PyVal → Bool) (v : PyVal)
+    (hpre : d.pre v = .ok v) (happ : d.applied = false)
     (hv : d.validators = []) (ha : d.args = none) (ho : originOk v = true) :
     instancecheck originOk (parseTyped P d) v = true ↔ ContainsHolds d.acc d.cont v ∧ ∃ r, d.post v = .ok r := by
   rw [C02_isinstance_decl, ho]
   simp only [true_and]
   constructor
   · rintro ⟨r, hr⟩
-    have := (C02_parse_typed_iff P d v r (by simp [ha]) (by simp [hv])).mp hr
+    have := (C02_parse_typed_iff P d v r hpre happ (by simp [ha]) (by simp [hv])).mp hr
     exact ⟨this.2.1, r, this.2.2⟩
   · rintro ⟨hc, r, hr⟩
-    exact ⟨r, (C02_parse_typed_iff P d v r (by simp [ha]) (by simp [hv])).mpr ⟨by simp [hv], hc, hr⟩⟩
+    exact ⟨r, (C02_parse_typed_iff P d v r hpre happ (by simp [ha]) (by simp [hv])).mpr ⟨by simp [hv], hc, hr⟩⟩
 
 /-- non-vacuity: a contains-only declaration that accepts one list and rejects another of the same origin type -/
 example (P : Prims) :
@@ -814,5 +1033,259 @@ validators it has when declared alone (no state is shared between declarations) 
 theorem C02_declarations_independent (mros : List (List Body)) (i : Nat) (h : i < mros.length) :
     (mros.map compile)[i]'(by simpa using h) = compile (mros[i]) := by
   simp
+
+/-! ### review round: constraint lists that contain `decimal_places`; `normalise`; what "rejected" means; precision -/
+
+theorem validate_append (P : Prims) (a b : List (String × PyVal)) (v : PyVal) :
+    validate P (a ++ b) v = (validate P a v >>= validate P b) := by
+  induction a generalizing v with
+  | nil => simp [validate, bind, Except.bind, pure, Except.pure]
+  | cons c a ih =>
+    obtain ⟨n, bd⟩ := c
+    simp only [List.cons_append, validate]
+    cases validatorOf n with
+    | none => simp [bind, Except.bind, throw, throwThe, MonadExceptOf.throw]
+    | some f =>
+      simp only [bind, Except.bind]
+      cases f P v bd with
+      | error e => rfl
+      | ok w => simpa [bind, Except.bind] using ih w
+
+/-- **a constraint list with `decimal_places` in it** (the one strict validator of a numeric type that is not
+input-preserving): the constraints before it look at the input, `decimal_places` accepts iff the value has at most `d`
+fraction digits and completes a Decimal to exactly `d` places, and the constraints after it (in table order: `multiple_of`,
+`max_digits`) look at the **completed** value `w`, which is also the result — the documented padding (rule.md) -/
+theorem C02_validate_decimal_places_chain (P : Prims) (pre post : List (String × PyVal)) (d v r : PyVal)
+    (hpre : ∀ c ∈ pre, c.1 ∈ strictPreservingNames) (hpost : ∀ c ∈ post, c.1 ∈ strictPreservingNames) :
+    validate P (pre ++ ("decimal_places", d) :: post) v = .ok r ↔
+      (∀ c ∈ pre, ∃ f, validatorOf c.1 = some f ∧ f P v c.2 = .ok v) ∧
+      ∃ w, Constraints.decimal_places P v d = .ok w ∧
+        (∀ c ∈ post, ∃ f, validatorOf c.1 = some f ∧ f P w c.2 = .ok w) ∧ r = w := by
+  rw [validate_append]
+  cases h1 : validate P pre v with
+  | error e =>
+    simp only [bind, Except.bind]
+    constructor
+    · intro h; cases h
+    · rintro ⟨hall, _⟩
+      have := (C02_validate_iff_names P pre v v hpre).mpr ⟨hall, rfl⟩
+      rw [h1] at this; cases this
+  | ok v1 =>
+    obtain ⟨hall, rfl⟩ := (C02_validate_iff_names P pre v v1 hpre).mp h1
+    simp only [bind, Except.bind, validate, validatorOf]
+    cases h2 : Constraints.decimal_places P v1 d with
+    | error e =>
+      constructor
+      · intro h; cases h
+      · rintro ⟨_, w, hw, _⟩; cases hw
+    | ok w =>
+      simp only [C02_validate_iff_names P post w r hpost]
+      constructor
+      · rintro ⟨hp, rfl⟩; exact ⟨hall, r, rfl, hp, rfl⟩
+      · rintro ⟨_, w', hw', hp, rfl⟩
+        injection hw' with hw'
+        subst hw'
+        exact ⟨hp, rfl⟩
+
+/-- the documented example: `Decimal('1.3')` with `decimal_places = 2, max_digits = 2` is completed to `1.30` (3 digits)
+and rejected by `max_digits`; with `max_digits = 3` it is accepted as `1.30` -/
+theorem C02_decimal_places_then_max_digits_example (P : Prims) :
+    validate P [("decimal_places", .int 2), ("max_digits", .int 2)] (.dec (.fin false 13 (-1))) = .error .valueError ∧
+    validate P [("decimal_places", .int 2), ("max_digits", .int 3)] (.dec (.fin false 13 (-1))) = .ok (.dec (.fin false 130 (-2))) := by
+  constructor <;> rfl
+
+/-- **known finding `decimal-places-precision`**: completing a Decimal to `d` places goes through `round(value, d)` =
+`quantize`, which raises `InvalidOperation` when the completed coefficient needs more digits than the context precision (28):
+a valid value (fraction digits ≤ d) is then rejected -/
+def KnownDefect.decimalPlacesPrecision (c : Nat) (e d : Int) : Bool :=
+  decide (e ≥ -d) && decide (numDigits (c * 10 ^ (e + d).toNat) > decPrec)
+
+theorem C02_decimal_places_precision_witness (P : Prims) :
+    KnownDefect.decimalPlacesPrecision (10 ^ 27) 0 2 = true ∧
+    specDecimals (10 ^ 27) 0 ≤ 2 ∧
+    Constraints.decimal_places P (.dec (.fin false (10 ^ 27) 0)) (.int 2) = .error .invalidOperation := by
+  refine ⟨by decide, by decide, ?_⟩
+  rfl
+
+/-- outside that region `decimal_places` is exact on finite Decimals: accepted iff the fraction digits fit, and the result is the
+input with zeros appended (same number) -/
+theorem C02_decimal_places_exact_partial (P : Prims) (s : Bool) (c : Nat) (e d : Int) (r : PyVal)
+    (hk : KnownDefect.decimalPlacesPrecision c e d = false) :
+    Constraints.decimal_places P (.dec (.fin s c e)) (.int d) = .ok r ↔
+      specDecimals c e ≤ d ∧ r = .dec (.fin s (c * 10 ^ (e + d).toNat) (-d)) := by
+  rw [C02_decimal_places_decimal]
+  constructor
+  · rintro ⟨h1, h2⟩
+    have he : e ≥ -d := by
+      have hd := (C02_parse_decimal_spec c e).2
+      unfold codeDecimals at hd
+      by_cases h0 : e ≥ 0
+      · simp [h0] at hd; omega
+      · simp [h0] at hd; omega
+    have hp : numDigits (c * 10 ^ (e + d).toNat) ≤ decPrec := by
+      simp [KnownDefect.decimalPlacesPrecision, he] at hk; omega
+    rw [C02_decimal_places_pads s c e d h1 hp] at h2
+    injection h2 with h2
+    exact ⟨h1, h2.symm⟩
+  · rintro ⟨h1, rfl⟩
+    have he : e ≥ -d := by
+      have hd := (C02_parse_decimal_spec c e).2
+      unfold codeDecimals at hd
+      by_cases h0 : e ≥ 0
+      · simp [h0] at hd; omega
+      · simp [h0] at hd; omega
+    have hp : numDigits (c * 10 ^ (e + d).toNat) ≤ decPrec := by
+      simp [KnownDefect.decimalPlacesPrecision, he] at hk; omega
+    exact ⟨h1, C02_decimal_places_pads s c e d h1 hp⟩
+
+example : KnownDefect.decimalPlacesPrecision 13 (-1) 2 = false := by decide
+
+/-- the completed value is the same number: `c·10^e = (c·10^(e+d))·10^(-d)` (so the result of `decimal_places` is `==` its input) -/
+theorem C02_decimal_places_same_number (s : Bool) (c : Nat) (e d : Int) (he : e ≥ -d) :
+    Q.eq (decQ s c e) (decQ s (c * 10 ^ (e + d).toNat) (-d)) = true := by
+  rw [C02_eq_exact _ _ 0 (-d) (by simp [decQ]) (by simp [decQ]) (by simpa [decQ] using he) (by simp [decQ])]
+  simp only [decide_eq_true_eq, Utv.Py.Q.over, decQ, Int.sub_self, Int.toNat_zero, Int.pow_zero, Int.mul_one]
+  have : (e - -d).toNat = (e + d).toNat := by congr 1; omega
+  rw [this]
+  cases s <;> simp [Int.natCast_mul, Int.natCast_pow, Int.neg_mul]
+
+/-! #### `normalise`: which collected constraints become validators (`validate_constraints`, rule.py:773-837) -/
+
+/-- `const` stands alone -/
+theorem C02_normalise_const (cs : List (String × PyVal)) (c : String × PyVal)
+    (h : cs.find? (fun c => baseKey c.1 == "const") = some c) : normalise cs = [c] := by
+  simp [normalise, h]
+
+/-- without `const`, `enum` stands alone -/
+theorem C02_normalise_enum (cs : List (String × PyVal)) (c : String × PyVal)
+    (h0 : cs.find? (fun c => baseKey c.1 == "const") = none)
+    (h : cs.find? (fun c => baseKey c.1 == "enum") = some c) : normalise cs = [c] := by
+  simp [normalise, h0, h]
+
+def isNoneB (v : PyVal) : Bool := match v with | .none => true | _ => false
+
+/-- the bounds that survive the first two filters of `normalise` -/
+def liveBounds (cs : List (String × PyVal)) : List (String × PyVal) :=
+  (cs.filter fun c => !isNoneB c.2).filter fun c => !(baseKey c.1 == "unique_items" && !Py.truthy c.2)
+
+/-- without `const` and `enum`, a collected constraint becomes a validator iff its bound is not `None`, it is not a false
+`unique_items`, and it is not a `min_length`/`max_length` made redundant by `length` (nor a zero `min_length`) -/
+theorem C02_normalise_mem_iff (cs : List (String × PyVal)) (c : String × PyVal)
+    (h0 : cs.find? (fun c => baseKey c.1 == "const") = none)
+    (h1 : cs.find? (fun c => baseKey c.1 == "enum") = none) :
+    c ∈ normalise cs ↔
+      c ∈ liveBounds cs ∧
+      (if baseKey c.1 == "min_length" then !((liveBounds cs).any fun x => baseKey x.1 == "length") && Py.truthy c.2
+       else if baseKey c.1 == "max_length" then !((liveBounds cs).any fun x => baseKey x.1 == "length") else true) = true := by
+  simp only [normalise, h0, h1, List.mem_filter, liveBounds, isNoneB]
+  constructor <;> intro h <;> exact h
+
+/-- **visible ⇒ enforced**: a constraint visible through the MRO with a real bound, in a declaration without `const`/`enum`
+and other than the `min_length`/`max_length`/`unique_items` special cases, is one of the compiled validators -/
+theorem C02_compile_enforced (mro : List Body) (key : String) (v : PyVal) (lax : Bool)
+    (hk : key ∈ Tables.constraintOrder) (hl : lookup mro key = some (.val v lax))
+    (h0 : (collect mro).find? (fun c => baseKey c.1 == "const") = none)
+    (h1 : (collect mro).find? (fun c => baseKey c.1 == "enum") = none)
+    (hv : isNoneB v = false)
+    (hkey : baseKey (vname key lax) ≠ "unique_items" ∧ baseKey (vname key lax) ≠ "min_length" ∧
+            baseKey (vname key lax) ≠ "max_length") :
+    (vname key lax, v) ∈ compile mro := by
+  unfold compile
+  rw [C02_normalise_mem_iff _ _ h0 h1]
+  have hu : (baseKey (vname key lax) == "unique_items") = false := by simpa using hkey.1
+  have a : (baseKey (vname key lax) == "min_length") = false := by simpa using hkey.2.1
+  have b : (baseKey (vname key lax) == "max_length") = false := by simpa using hkey.2.2
+  refine ⟨?_, by simp [a, b]⟩
+  simp only [liveBounds, List.mem_filter]
+  exact ⟨⟨(C02_collect_iff mro _ v).mpr ⟨key, lax, hk, hl, rfl⟩, by simp [hv]⟩, by simp [hu]⟩
+
+/-- the `length` rule: with `length` declared, `min_length` and `max_length` are not compiled (they are implied or the
+declaration was refused) -/
+theorem C02_normalise_length_example :
+    normalise [("length", .int 2), ("max_length", .int 3), ("min_length", .int 1)] = [("length", .int 2)] := by
+  simp [normalise, baseKey, Py.truthy]
+
+/-- **declaration level**: for a class statement whose compiled validators are input-preserving (any MRO over the twelve
+names), no item types and default hooks, the declared type accepts a value of its origin type exactly when every compiled
+validator accepts it and the contains family read through the MRO holds; result = input -/
+theorem C02_declared_type_iff (P : Prims) (mro : List Body) (acc : PyVal → Bool) (v r : PyVal)
+    (hn : ∀ c ∈ compile mro, c.1 ∈ strictPreservingNames) :
+    parseTyped P (declOf mro none acc pure) v = .ok r ↔
+      (∀ c ∈ compile mro, ∃ f, validatorOf c.1 = some f ∧ f P v c.2 = .ok v) ∧
+      ContainsHolds acc (containsCfg mro) v ∧ r = v := by
+  have h := C02_parse_typed_iff P (declOf mro none acc pure) v r rfl rfl (by simp [declOf])
+    (fun c hc => C02_preserving_of_name (hn c hc))
+  simp only [declOf] at h ⊢
+  rw [h]
+  simp [pure, Except.pure, eq_comm]
+
+/-- non-vacuity of `C02_parse_typed_iff` with item types, validators and contains together: `List[int]`-like declaration
+(items of the item type convert to themselves, a list packs to itself), `max_length = 3`, `contains` positive, `max_contains = 2` -/
+example (P : Prims) :
+    let d : Decl := { validators := [("max_length", .int 3)], args := some pure, cont := ⟨true, none, some 2⟩,
+                      acc := fun x => match x with | .int i => decide (0 < i) | _ => false, post := pure }
+    (∀ f, d.args = some f → f (.seq .list [.int 1, .int (-2)]) = .ok (.seq .list [.int 1, .int (-2)]) ∧
+        d.pack (.seq .list [.int 1, .int (-2)]) = .ok (.seq .list [.int 1, .int (-2)])) ∧
+    (∀ c ∈ d.validators, ∃ f, validatorOf c.1 = some f ∧ Preserving f) ∧
+    parseTyped P d (.seq .list [.int 1, .int (-2)]) = .ok (.seq .list [.int 1, .int (-2)]) ∧
+    parseTyped P d (.seq .list [.int 1, .int 2, .int 3]) = .error .valueError := by
+  refine ⟨?_, ?_, rfl, rfl⟩
+  · intro f hf; simp at hf; subst hf; exact ⟨rfl, rfl⟩
+  · intro c hc; simp at hc; subst hc; exact ⟨_, rfl, preserving_max_length⟩
+
+/-- `max_contains = 0` (the repaired defect): together with `contains` nothing is accepted -/
+theorem C02_contains_max_zero (acc : PyVal → Bool) (k : Cls) (xs : List PyVal) (r : PyVal) :
+    parseContains acc ⟨true, none, some 0⟩ (.seq k xs) ≠ .ok r := by
+  intro h
+  obtain ⟨hc, _⟩ := (C02_contains_iff _ _ _ _).mp h
+  obtain ⟨ys, _, h1, _, h3⟩ := hc rfl
+  have := h3 0 rfl
+  omega
+
+/-! #### "rejected" vs "outside the model": on the exact domains the validators never answer `unmodelled` -/
+
+/-- on numbers (bool, int, finite or infinite float, finite or infinite Decimal — any mix) a range constraint either accepts
+(returning its input) or raises `ValueError`; it is never `unmodelled` and never another exception -/
+theorem C02_range_total_numeric (P : Prims) (v b : PyVal) (hv : Numeric v) (hb : Numeric b) :
+    (Constraints.gt P v b = .ok v ∨ Constraints.gt P v b = .error .valueError) ∧
+    (Constraints.ge P v b = .ok v ∨ Constraints.ge P v b = .error .valueError) ∧
+    (Constraints.lt P v b = .ok v ∨ Constraints.lt P v b = .error .valueError) ∧
+    (Constraints.le P v b = .ok v ∨ Constraints.le P v b = .error .valueError) := by
+  obtain ⟨x, hx, nx⟩ := hv
+  obtain ⟨y, hy, ny⟩ := hb
+  have h1 : Py.lt v b = .ok (NumV.lt x y) := lt_numeric hx hy nx ny
+  have h2 : Py.lt b v = .ok (NumV.lt y x) := lt_numeric hy hx ny nx
+  refine ⟨?_, ?_, ?_, ?_⟩
+  · unfold Constraints.gt
+    simp only [Py.gt, h2]
+    cases NumV.lt y x <;> py_simp
+  · unfold Constraints.ge
+    simp only [Py.ge, Py.le, h2, bind, Except.bind, pure, Except.pure]
+    cases (NumV.lt y x || Py.eq b v) <;> py_simp
+  · unfold Constraints.lt
+    simp only [h1]
+    cases NumV.lt x y <;> py_simp
+  · unfold Constraints.le
+    simp only [Py.le, h1, bind, Except.bind, pure, Except.pure]
+    cases (NumV.lt x y || Py.eq v b) <;> py_simp
+
+/-- the length family on anything that has a length, with an int bound: accepts or `ValueError` -/
+theorem C02_length_total (P : Prims) (v : PyVal) (n : Nat) (m : Int) (h : lenOf v = some n) :
+    (Constraints.max_length P v (.int m) = .ok v ∨ Constraints.max_length P v (.int m) = .error .valueError) ∧
+    (Constraints.min_length P v (.int m) = .ok v ∨ Constraints.min_length P v (.int m) = .error .valueError) ∧
+    (Constraints.length P v (.int m) = .ok v ∨ Constraints.length P v (.int m) = .error .valueError) := by
+  refine ⟨?_, ?_, ?_⟩
+  · unfold Constraints.max_length
+    simp only [hasLen_of_lenOf h, Bool.not_true]
+    py_simp [len_of_lenOf h]
+    by_cases hn : m < (n : Int) <;> simp [hn] <;> omega
+  · unfold Constraints.min_length
+    simp only [hasLen_of_lenOf h, Bool.not_true]
+    py_simp [len_of_lenOf h]
+    by_cases hn : (n : Int) < m <;> simp [hn] <;> omega
+  · unfold Constraints.length
+    simp only [hasLen_of_lenOf h, Bool.not_true]
+    py_simp [len_of_lenOf h, ne_int]
+    by_cases hn : (n : Int) = m <;> simp [hn]
 
 end Utv.C02
